@@ -9,8 +9,20 @@ class C23(core.Prop):
     max_workers = 6
     technique = ("property-based testing (Hypothesis): generated workloads with pstate changes and on/off switches on hosts / links with random "
                  "power models; reference model = the integral of the documented power function over the events of the log")
-    rule = ""
-    assumptions = []
+    rule = ("Host scenarios (2 of 3): host h0 with 1-4 cores, 1-3 pstates, a random wattage_per_state (2- and 3-value forms mixed, Epsilon >= Idle, "
+            "AllCores >= Epsilon, values that make Idle, Epsilon and AllCores differ or coincide) and optionally wattage_off; 1-5 workers, local "
+            "(killed when h0 is switched off) or remote (they get HostFailure), doing single-core executions (so that the load is min(k, cores) / "
+            "cores), sleeps and energy reads; a controller changing the pstate, switching h0 off and on, reading the energy.  Link scenarios: link "
+            "l0 (SHARED or FATPIPE, latency 0-1 s) with wattage_range (and sometimes wattage_off), 1-3 sender/receiver pairs, flows optionally "
+            "rate-limited (fractional usage), a controller switching the link and reading the energy.  Half of the scenarios also read the "
+            "energy at every time step (scenario key sample), the others only through the actors.  Oracle: every value read equals, to 1e-9 "
+            "relative, the integral over the log's events of P = wattage_off | Idle | Epsilon + load * (AllCores - Epsilon) of the pstate in "
+            "force (hosts), idle + (busy - idle) * usage / bandwidth with usage = 0 outside the transfer phases, min(bandwidth, sum of the rate "
+            "limits) inside (links); successive reads never decrease.  NON-TRIVIAL: a pstate change or a switch-off while something runs "
+            "(hosts); concurrent flows, a rate-limited flow or a switch (links).")
+    assumptions = ["the spans of the executions / transfers are taken from the log (their dates are other properties' business)",
+                   "Lazy and Full CPU / network models only (Host::get_load() has no meaning under TI)",
+                   "a FATPIPE link is not shared: its usage is the largest flow"]
 
     def strategy(self, tier):
         return energygen.scenarios(tier)
